@@ -55,11 +55,17 @@ def Alloc.allPerRun : Alloc := ⟨true, true, true, true, true⟩
     goroutines still hold it.  `cap` is per run exactly when the syntactic write-set
     `sharedWrites` (captured constructor variables, shared-receiver fields, package variables,
     sync.Pool / sync.Map traffic) and `nonFreshPerRunFields` are empty: then every other
-    written location is a local of a function invocation that belongs to one run. -/
+    written location is a local of a function invocation that belongs to one run.
+    `opt` is per run when `run` binds the map built by `extractOption` AND the values of that
+    map are storage of the run (`extractOptionCopies`: every store is
+    `optMap[k] = append(optMap[k], …)`, never a window into the caller's `Option.options`
+    array, which every run that was given the same Option value shares – the slice-level
+    account of this is EinoV/Model/C09Opt.lean). -/
 def allocOf (runAllocsCM channelsPerRun cmFieldsFresh runAllocsTM tmQueueFresh runBuildsOptMap
-    stateViaRunCtx : Bool) (sharedWrites nonFreshPerRunFields : List String) : Alloc :=
+    stateViaRunCtx : Bool) (sharedWrites nonFreshPerRunFields : List String)
+    (extractOptionCopies : Bool := true) : Alloc :=
   { cm := runAllocsCM && channelsPerRun && cmFieldsFresh, tm := runAllocsTM && tmQueueFresh,
-    opt := runBuildsOptMap, st := stateViaRunCtx,
+    opt := runBuildsOptMap && extractOptionCopies, st := stateViaRunCtx,
     cap := sharedWrites.isEmpty && nonFreshPerRunFields.isEmpty }
 
 /-- the heap: one shared cell group (the compiled object) and one private group per run -/
